@@ -325,6 +325,43 @@ def run(chk):
     from . import batcher
     batcher.bounded_retry(chk, P, "C12.batcher")
     batcher.retry_remainder(chk, P, "C12.batcher")
+    def grpc_frame():
+        """gRPC length-prefixed framing: 1 flag byte (1 iff the body is compressed) + the payload length as 4 big-endian bytes."""
+        bodies = [b for b in P.by_crate["emit_otlp"] if [c for c in b.calls(normal_only=True) if c.callee.get("name") == "with_content_frame"]]
+        if len(bodies) != 1:
+            raise mir.AnchorMissing("the one closure that frames gRPC requests (found %d)" % len(bodies))
+        b = bodies[0]
+        cs = [c for c in b.calls(normal_only=True) if c.callee.get("name") == "with_content_frame"]
+        flags = {}
+        for c in cs:
+            o = b.origin(c.args[1])
+            if o[0] != "agg" or o[1].get("ak") != "array" or len(o[2]) != 5:
+                return False, "the frame header at %s is not a 5-byte array literal" % c.loc, [], c.loc
+            flag = mir.o_const_value(o[2][0])
+            for k, x in enumerate(o[2][1:]):
+                if not (x[0] == "index" and len(x) > 2 and mir.o_const_value(x[2]) == k):
+                    return False, "byte %d of the frame header at %s is %s, expected byte %d of the big-endian length" % (k + 1, c.loc, o_str(x), k), [], c.loc
+                src = x[1]
+                if not (src[0] == "call" and src[1].callee.get("name") == "to_be_bytes" and "u32" in (src[1].callee.get("path") or "")):
+                    return False, "the length prefix at %s is %s, not u32::to_be_bytes" % (c.loc, o_str(src)), [], c.loc
+                rr = common.roots(src)
+                ln = [cc for cc in b.calls(normal_only=True) if cc.callee.get("name") == "content_payload_len"]
+                if len(ln) != 1 or ("callsite", ln[0].bb) not in rr:
+                    return False, "the length prefix does not derive from the request's content_payload_len()", [], c.loc
+            compressed = None
+            for gbb, vals, n in b.guards_of(c.bb):
+                so = b.switch_origin(gbb)
+                x = so[1] if so[0] == "discr" else so
+                if x[0] == "call" and x[1].callee.get("name") == "take_content_encoding_header":
+                    compressed = list(vals) == ["1"]
+            if compressed is None:
+                return False, "the frame at %s is not decided by whether the body carries a content encoding" % c.loc, [], c.loc
+            flags[compressed] = flag
+        if flags != {True: 1, False: 0}:
+            return False, "compressed-flag byte per arm is %s; it must be 1 exactly when the body is compressed" % flags, [], cs[0].loc
+        return True, "", [c.loc for c in cs]
+    chk.ob("C12.R7:grpc-frame", "a gRPC request is framed as flag (1 iff compressed) + big-endian u32 length of the payload it carries", grpc_frame)
+
     # "Flush reports success only after all of this has happened": every configured signal is flushed (shared with C07)
     from . import c07
     c07.end_to_end(chk, P, "C12.flush", only=("R5:OtlpInner::blocking_flush", "R5:Otlp::blocking_flush", "R5:otlp-transport"))
